@@ -10,7 +10,7 @@ class WC14(WeaverUnit):
 
 class C14(Property):
     id = "C14"
-    gen_targets = ["Funfit", "Kernels"]
+    gen_targets = ["Funfit", "Kernels", "ProcessGlue"]
 
     def units(self, tier):
         return [TrendUnit(), NormalizeUnit(), WC14(("C14",), ops=['trend','shift_x','shift_y','scale_x','scale_y','normalize_x','normalize_y','append'], max_len=6, queries=False)]
